@@ -206,7 +206,7 @@ def gen_pd(rng: Rng, now: int, profile: str) -> dict:
     else:
         pd["defer_by"] = rng.choice([S, 2 * S, 10 * S])
     if rng.random() < (0.5 if profile == "ttl" else 0.2):
-        pd["ttl"] = rng.choice([S, 2 * S, 5 * S, 3600 * S])
+        pd["ttl"] = rng.choice([S, 2 * S, 5 * S, 3600 * S, 0, 1])
     if rng.random() < 0.3:
         pd["timeout"] = rng.choice([S, 5 * S, 600 * S, 86400 * S, 2 * 86400 * S + 5 * S])
     return pd
